@@ -158,6 +158,17 @@ var exportKinds = []struct{ kind, expr, snap string }{
 	{"time", "time(0)", "time:0.0"},
 	{"empty-array", "[]", "imarray[]"},
 	{"empty-map", "{}", "immap{}"},
+	// containers produced by every expression form (the value, not the syntax, is what gets frozen)
+	{"array-by-plus", "[1] + [[2]]", "imarray[int:1,array[int:2]]"},
+	{"array-by-or", "undefined || [1, [2]]", "imarray[int:1,array[int:2]]"},
+	{"map-by-and", "true && {a: 1, b: [2]}", "immap{\"a\":int:1,\"b\":array[int:2]}"},
+	{"array-by-cond", "true ? [1, [2]] : 2", "imarray[int:1,array[int:2]]"},
+	{"array-by-call", "(func() { return [1, [2]] })()", "imarray[int:1,array[int:2]]"},
+	{"array-by-index", "[[1, [2]]][0]", "imarray[int:1,array[int:2]]"},
+	{"map-by-selector", "{k: {a: 1, b: [2]}}.k", "immap{\"a\":int:1,\"b\":array[int:2]}"},
+	{"array-by-slice", "[1, [2], 3][0:2]", "imarray[int:1,array[int:2]]"},
+	{"array-by-paren", "([1, [2]])", "imarray[int:1,array[int:2]]"},
+	{"array-by-builtin", "append([1], [2])", "imarray[int:1,array[int:2]]"},
 }
 
 func valueProgs() []Case {
@@ -294,6 +305,15 @@ var immutExports = []struct{ kind, body string }{
 	{"error", "export error([1])\n"},
 	{"undefined", "export undefined\n"},
 	{"no-export", "a := 1\n"},
+	{"array-by-plus", "base := [1, [2]]\nexport base + [3]\n"},
+	{"map-by-or", "cfg := undefined\nexport cfg || {a: 1, deps: [1, 2]}\n"},
+	{"map-by-and", "ok := true\ntbl := {a: 1, deps: [1, 2]}\nexport ok && tbl\n"},
+	{"array-by-cond", "export true ? [1, [2], 3] : 0\n"},
+	{"map-by-call", "mk := func() { return {a: 1, deps: [1, 2]} }\nexport mk()\n"},
+	{"array-by-index", "export [[1, [2], 3]][0]\n"},
+	{"map-by-selector", "export {k: {a: 1, deps: [1, 2]}}.k\n"},
+	{"array-by-slice", "export [1, [2], 3, 4][0:3]\n"},
+	{"array-by-paren", "export ([1, [2], 3])\n"},
 }
 
 // nested = the write goes through a container *inside* the exported value; the
